@@ -617,7 +617,7 @@ func get(ctx *cli.Context) (*Config, error) {
 	}
 
 	var azblob *AzBlobStorageConfig
-	if ctx.String("azblob.tenant_id") != "" {
+	if ctx.String("azblob.tenant_id") != "" || ctx.String("azblob.storage_account") != "" {
 		azblob = &AzBlobStorageConfig{
 			TenantID:         ctx.String("azblob.tenant_id"),
 			StorageAccount:   ctx.String("azblob.storage_account"),
